@@ -190,7 +190,13 @@ func c12EvalHist(c *Ctx, raw []byte) {
 			if i > 0 {
 				vv += ",executed-again-by-a-fresh-executor"
 			}
-			run := c12ExecFns(data, []pipeline.Action{spec}, true, fns)
+			// the one spec value, passed by value and — every other run — as a pointer to it (equivalent entry points)
+			var act pipeline.Action = spec
+			if i%2 == 1 {
+				act = &spec
+				vv += ",passed-as-pointer"
+			}
+			run := c12ExecFns(data, []pipeline.Action{act}, true, fns)
 			runs, lens = append(runs, run), append(lens, len(run.rec.ev))
 			if strings.HasPrefix(run.text, "runaway") {
 				if !c.searchMode {
